@@ -71,6 +71,25 @@ inductive History : AVal → Type
   | migrate {a : AVal} (h : History a) : History .fr
   /-- a fitness read of the population; only after a step -/
   | read (h : History .ev) : History .ev
+  /-- a hall-of-fame update (`Island._get_potential_hof_members`): the population is evaluated first unless every
+  member is already marked evaluated, then its fitness values are read; allowed anywhere in a history -/
+  | hofUpdate {a : AVal} (h : History a) : History .ev
+
+/-- `Island._evaluate_population_if_needed`: `if not all(indv.fit_set …): self.evaluate_population()` -/
+def evalIfNeeded (f : Nat → Key) (cost : Nat → Nat) (redundant : Bool) (q : List Indiv) : List Indiv :=
+  if q.all (·.flag) then q else (serialEval f cost redundant q).1
+
+theorem allEv_evalIfNeeded {f : Nat → Key} (cost : Nat → Nat) (redundant : Bool) {q : List Indiv}
+    (h : AllFresh f q) : AllEv f (evalIfNeeded f cost redundant q) := by
+  unfold evalIfNeeded
+  split
+  · rename_i hall
+    intro i hi
+    have hflag : i.flag = true := by
+      have := List.all_eq_true.mp hall i hi
+      simpa using this
+    exact ⟨hflag, h i hi hflag⟩
+  · exact serialEval_all_evaluated cost redundant h
 
 /-- `Reach f h p0 p`: some concrete execution of history `h` from population `p0` ends in `p` -/
 def Reach (f : Nat → Key) : {a : AVal} → History a → List Indiv → List Indiv → Prop
@@ -80,6 +99,7 @@ def Reach (f : Nat → Key) : {a : AVal} → History a → List Indiv → List I
   | _, .reset h, p0, p => ∃ q, Reach f h p0 q ∧ p = clearFlags q
   | _, .migrate h, p0, p => ∃ q l, Reach f h p0 q ∧ p = clearFlags l
   | _, .read h, p0, p => Reach f h p0 p
+  | _, .hofUpdate h, p0, p => ∃ q cost redundant, Reach f h p0 q ∧ p = evalIfNeeded f cost redundant q
 
 /-- every fitness read along every concrete execution of the history is safe -/
 def HSafe (f : Nat → Key) : {a : AVal} → History a → List Indiv → Prop
@@ -89,6 +109,7 @@ def HSafe (f : Nat → Key) : {a : AVal} → History a → List Indiv → Prop
   | _, .reset h, p0 => HSafe f h p0
   | _, .migrate h, p0 => HSafe f h p0
   | _, .read h, p0 => HSafe f h p0 ∧ ∀ q, Reach f h p0 q → AllEv f q
+  | _, .hofUpdate h, p0 => HSafe f h p0 ∧ ∀ p, Reach f (.hofUpdate h) p0 p → AllEv f p
 
 theorem history_sound {f : Nat → Key} {a : AVal} (h : History a) {p0 : List Indiv}
     (h0 : AllFresh f p0) :
@@ -121,6 +142,11 @@ theorem history_sound {f : Nat → Key} {a : AVal} (h : History a) {p0 : List In
     exact allFresh_clearFlags f l
   | read h ih =>
     exact ⟨⟨ih.1, ih.2⟩, ih.2⟩
+  | hofUpdate h ih =>
+    have key : ∀ p, Reach f (.hofUpdate h) p0 p → AllEv f p := by
+      rintro p ⟨q, cost, red, hq, rfl⟩
+      exact allEv_evalIfNeeded cost red (ih.2 q hq).some_fresh
+    exact ⟨⟨ih.1, key⟩, key⟩
 
 end PipelineSem
 end Bingo
